@@ -97,6 +97,9 @@ def run(ctx):
         for i in range(3):
             jobs.append(("tab%d" % i, ["tables", seed + i, 1, 2, 6]))
         jobs.append(("tabL", ["tables", seed + 50, 1, 7, 9]))
+        # decade-aligned builder sweep (E' on every grid point incl. exactly 1 MeV): stratified
+        for i in range(2):
+            jobs.append(("sweep%d" % i, ["sweep", seed, 0, i, 2]))
         jobs.append(("loss", ["loss", seed, 4]))
         jobs.append(("msc", ["msc", seed, 2]))
     else:
@@ -106,6 +109,8 @@ def run(ctx):
             jobs.append(("tabL%d" % i, ["tables", seed + 50 + i, 1, 7, 12]))
         for i in range(3):
             jobs.append(("tabXL%d" % i, ["tables", seed + 80 + i, 1, 30 + 25 * i, 30 + 25 * i]))
+        for i in range(8):
+            jobs.append(("sweep%d" % i, ["sweep", seed, 1, i, 8]))      # the full sweep (~43700 (grid, E'))
         for i in range(4):
             jobs.append(("loss%d" % i, ["loss", seed + i, 16]))
         for i in range(4):
@@ -191,7 +196,9 @@ def run(ctx):
                 "per round trip, per loss sample, per MSC conversion); distinct_nontrivial = distinct (calculator, "
                 "numeric table realisation, class, k) tuples + distinct loss sweeps + distinct MSC cases, measured on "
                 "the traces; tables are seeded (random / zeros / steep / smooth values on random log grids, every "
-                "prime_index position, ValueGridXsBuilder ctor / from_geant / from_scaled, ValueGridLogBuilder "
+                "prime_index position, ValueGridXsBuilder ctor / from_geant / from_scaled (plus a sweep over decade-aligned "
+                "grids 10^-6..10^0 -> 10^0..10^8, 1-20 bins/decade, E' on every grid point incl. exactly 1 MeV, queried "
+                "around the prime index; expected prime index derived by the spec from the knots and E'), ValueGridLogBuilder "
                 "from_geant / from_range, GenericGridBuilder incl. inverses); ulp classes via nextafter",
         "samples": samples,
         "states": mc.distinct, "transitions": mc.generated,
